@@ -61,7 +61,8 @@ ASSUMPTIONS = ['the PSF model classes themselves are judged by C13 and make_mode
                'a recovery failure is attributed to photutils only when an independent fit of the same group (own fit '
                'windows and ordering, same astropy TRFLSQFitter, numerical Jacobian, same start) does recover the truth; '
                'otherwise the optimiser left its basin / stopped short and the case is counted under notes.recovery_undecided_* '
-               'or notes.scale_relation_undecided_* (same rule for the image x k relation: scipy TRF with x_scale=1 is not '
+               'or notes.scale_relation_undecided_* / notes.permutation_relation_undecided_* (same rule for the image x k and the '
+               'row-permutation relations: scipy TRF with x_scale=1 is not '
                'scale free on one-sided edge-clipped windows) '
                '(3 of 17123 thorough scenes)',
                'astropy Table/QTable semantics (group_by, join) are trusted',
@@ -1087,7 +1088,7 @@ def run_case(case):
                           mech)
         elif rel == 'permute' and n >= 2:
             _rel_permute(case, o, s, model, grouper, call_data, mask, call_err, init, bounds, kw, tbl, gsize, R,
-                         grp_ok, mech)
+                         grp_ok, mech, raw=(data, mask, error))
         elif rel == 'scale_k':
             _rel_scale(case, o, s, model, grouper, data, mask, error, init, names, bounds, kw, tbl, gsize, R, rel,
                        grp_ok, mech, limited_grp)
@@ -1200,7 +1201,8 @@ def _rel_separate(case, o, s, model, grouper, data, mask, error, init, bounds, k
                   dict(mech, group_size=int(len(rows_in))))
 
 
-def _rel_permute(case, o, s, model, grouper, data, mask, error, init, bounds, kw, tbl, gsize, R, grp_ok, mech):
+def _rel_permute(case, o, s, model, grouper, data, mask, error, init, bounds, kw, tbl, gsize, R, grp_ok, mech,
+                 raw=None):
     """Permuting the input rows permutes the output rows; single sources bit-for-bit, groups within tolerance."""
     if not grp_ok or o['ids'] is not None:
         return
@@ -1222,16 +1224,39 @@ def _rel_permute(case, o, s, model, grouper, data, mask, error, init, bounds, kw
                   dict(mech, fit='isolated'), cols=[c for c in COMPARE_COLS if c in tbl.colnames])
     multi = ~single
     if multi.any() and not o['perturbed'] and o['maxiters'] is None and not getattr(s, 'undecided', False):
-        j = np.nonzero(multi)[0]
-        case.close(_col(t2, 'x_fit')[j], _col(tbl, 'x_fit')[perm[j]], 'permuted_rows_same_results', rtol=0,
-                   atol=2 * TOL_GRP['pos'], mech=dict(mech, fit='grouped', col='x_fit'))
-        case.close(_col(t2, 'y_fit')[j], _col(tbl, 'y_fit')[perm[j]], 'permuted_rows_same_results', rtol=0,
-                   atol=2 * TOL_GRP['pos'], mech=dict(mech, fit='grouped', col='y_fit'))
-        case.close(_col(t2, 'flux_fit')[j], _col(tbl, 'flux_fit')[perm[j]], 'permuted_rows_same_results',
-                   rtol=2 * TOL_GRP['flux'], mech=dict(mech, fit='grouped', col='flux_fit'))
+        jm = np.nonzero(multi)[0]
         for c in ('npixfit', 'group_size', 'x_init', 'y_init', 'flux_init'):
-            case.close(_col(t2, c)[j], _col(tbl, c)[perm[j]], 'permuted_rows_same_results',
+            case.close(_col(t2, c)[jm], _col(tbl, c)[perm[jm]], 'permuted_rows_same_results',
                        mech=dict(mech, fit='grouped', col=c))
+        # values of the unpermuted call, indexed by the rows of the permuted call
+        bx_, by_, bf_ = _col(tbl, 'x_fit')[perm], _col(tbl, 'y_fit')[perm], _col(tbl, 'flux_fit')[perm]
+        g2 = _col(t2, 'group_id')
+        for g in dict.fromkeys(g2[jm].tolist()):
+            j = np.array([k for k in jm if g2[k] == g])
+            okx = core.same(_col(t2, 'x_fit')[j], bx_[j], 0, 2 * TOL_GRP['pos'])[0]
+            oky = core.same(_col(t2, 'y_fit')[j], by_[j], 0, 2 * TOL_GRP['pos'])[0]
+            okf = core.same(_col(t2, 'flux_fit')[j], bf_[j], 2 * TOL_GRP['flux'], 0)[0]
+            if not (okx and oky and okf) and raw is not None:
+                # Arbitration (as for recovery and image x k): the order of the sub-models inside the compound model
+                # changes the optimiser's path.  The disagreement is attributed to photutils only when an independent
+                # fit of this group in THIS row order from the same start reproduces the other order's result.
+                if bounds is None:
+                    bx = by = None
+                elif np.ndim(bounds) == 0:
+                    bx = by = float(bounds)
+                else:
+                    bx, by = bounds
+                tol = dict(pos=2 * TOL_GRP['pos'], flux=2 * TOL_GRP['flux'])
+                if not _independent_fit_recovers(model, t2, list(j), s, o, raw[0], raw[1], raw[2], bx, by, bx_, by_, bf_,
+                                                 tol):
+                    case.note('permutation_relation_undecided_independent_fit_in_that_order_also_differs')
+                    continue
+            case.close(_col(t2, 'x_fit')[j], bx_[j], 'permuted_rows_same_results', rtol=0, atol=2 * TOL_GRP['pos'],
+                       mech=dict(mech, fit='grouped', col='x_fit'))
+            case.close(_col(t2, 'y_fit')[j], by_[j], 'permuted_rows_same_results', rtol=0, atol=2 * TOL_GRP['pos'],
+                       mech=dict(mech, fit='grouped', col='y_fit'))
+            case.close(_col(t2, 'flux_fit')[j], bf_[j], 'permuted_rows_same_results', rtol=2 * TOL_GRP['flux'],
+                       mech=dict(mech, fit='grouped', col='flux_fit'))
 
 
 def _rel_scale(case, o, s, model, grouper, data, mask, error, init, names, bounds, kw, tbl, gsize, R, rel, grp_ok,
@@ -1328,7 +1353,10 @@ def _rel_iterative(case, o, s, model, grouper, data, mask, error, init, bounds, 
                            dict(im, col='unit'))
 
 
-def _own_render(s, model, tbl, shape, rows=None):
+def _own_render(s, model, tbl, shape, rows=None, psf_shape=None):
+    """Sum of the fitted models.  psf_shape (odd, odd): every source is rendered only over 'the region around the
+    center of the fit model' of that shape, as make_model_image documents (window centred on the pixel containing the
+    fitted position, trimmed to the image; a source whose window misses the image contributes nothing)."""
     yy, xx = np.mgrid[:shape[0], :shape[1]]
     img = np.zeros(shape)
     for k in (range(len(tbl)) if rows is None else rows):
@@ -1336,7 +1364,13 @@ def _own_render(s, model, tbl, shape, rows=None):
         G.set_xyf(m, _col(tbl, 'x_fit')[k], _col(tbl, 'y_fit')[k], _col(tbl, 'flux_fit')[k])
         for name in s.info['free']:
             setattr(m, name, _col(tbl, name + '_fit')[k])
-        img += np.asarray(m(xx, yy), float)
+        if psf_shape is None:
+            img += np.asarray(m(xx, yy), float)
+        else:
+            wr, wc, _, _ = O.fit_window(shape, psf_shape, _col(tbl, 'x_fit')[k], _col(tbl, 'y_fit')[k])
+            if len(wr) and len(wc):
+                sub = np.ix_(wr, wc)
+                img[sub] += np.asarray(m(xx[sub], yy[sub]), float)
     return img
 
 
@@ -1346,7 +1380,7 @@ def _rel_model_image(case, p, tbl, s, o, model, call_data, data, mech):
     big = (2 * max(s.shape) + 1, 2 * max(s.shape) + 1)
     mm = dict(mech, relation='model_image')
     mi = np.asarray(p.make_model_image(s.shape, psf_shape=big))
-    own = _own_render(s, model, tbl, s.shape)
+    own = _own_render(s, model, tbl, s.shape, psf_shape=big)
     case.close(mi, own, 'model_image_is_sum_of_fitted_models', rtol=1e-10, atol=1e-12 * float(np.max(np.abs(own))),
                mech=mm)
     ps = int(_pick(rng, [5, 9, 15]))
@@ -1563,7 +1597,7 @@ def _shared_checks(case, ex, info, o, mech):
     case.dev(f'residual_over_peak_{tag}', rr)
     case.check(rr <= tol['resid'], 'residual_image_is_zero', dict(mech, fit=tag), rel=rr)
     mi = np.asarray(ph.make_model_image(shape, psf_shape=big))
-    own = _own_render(s, snap, tbl, shape)
+    own = _own_render(s, snap, tbl, shape, psf_shape=big)
     case.close(mi, own, 'model_image_is_sum_of_fitted_models', rtol=1e-10, atol=1e-12 * float(np.max(np.abs(own))),
                mech=dict(mech, relation='model_image'))
     with np.errstate(invalid='ignore'):
